@@ -14,11 +14,27 @@ package l4wireguard
 //@ ensures[C06] err != nil ==> !matched
 
 //@ func (msg *MessageInitiation) FromBytes(src []byte) (err error)
+//@ inline
 //@ requires msg != nil
 //@ safety C04
 //@ assigns[C06] all(msg)
 
 //@ func (msg *MessageTransport) FromBytes(src []byte) (err error)
+//@ inline
 //@ requires msg != nil && len(msg.Content) == 0 && cap(msg.Content) == 0 && len(src) <= 65535
 //@ safety C04
 //@ assigns[C06] all(msg)
+
+// Round-trip lemmas (C18): the Go functions in zz_lemmas_verif.go return true for all inputs.
+// (the two MessageInitiation lemmas move 148 bytes field by field: tens of seconds of solver time,
+// hence obligations of the thorough tier only)
+//@ func lemmaInitiationParseSerialize(src []byte) bool
+//@ ensures[C18@thorough] result
+//@ func lemmaTransportParseSerialize(src []byte) bool
+//@ requires len(src) <= 65535
+//@ ensures[C18] result
+//@ func lemmaInitiationSerializeParse(m MessageInitiation) bool
+//@ ensures[C18@thorough] result
+//@ func lemmaTransportSerializeParse(typ uint32, receiver uint32, counter uint64, content []byte) bool
+//@ requires len(content) <= 65000
+//@ ensures[C18] result
